@@ -269,6 +269,16 @@ func (c *Child) died(how string) *Crash {
 // handler returns a short single-line answer; a panic inside it is reported as an answer
 // "PANIC <value> @ <frame>" (recoverable panics do not kill the child).
 func ServeChild(limitBytes uint64, handler func(payload []byte) string) {
+	// a child that spins on an input must not outlive a parent killed by the driver's watchdog
+	parent := os.Getppid()
+	go func() {
+		for {
+			time.Sleep(time.Second)
+			if os.Getppid() != parent {
+				os.Exit(3)
+			}
+		}
+	}()
 	in := bufio.NewReaderSize(os.Stdin, 1<<22)
 	out := bufio.NewWriter(os.Stdout)
 	warm := make([]byte, 8<<20) // make the runtime map its first arenas before the limit applies
